@@ -33,6 +33,7 @@ XSD = (f'<xs:schema xmlns:xs="{cm.XS}" targetNamespace="{T}" xmlns:t="{T}" eleme
        '<xs:element name="code" type="t:code" minOccurs="0"/>'
        '<xs:element name="opt" type="xs:int" nillable="true" minOccurs="0"/>'
        '<xs:element name="mark" minOccurs="0"><xs:complexType><xs:attribute name="lvl" type="xs:int"/></xs:complexType></xs:element>'
+       '<xs:element name="alt" type="t:altBase" minOccurs="0">@ALT@</xs:element>'
        '<xs:element name="price" minOccurs="0"><xs:complexType><xs:simpleContent><xs:extension base="xs:decimal">'
        '<xs:attribute name="cur" type="xs:string" use="required"/></xs:extension></xs:simpleContent>'
        '</xs:complexType></xs:element>'
@@ -43,20 +44,28 @@ XSD = (f'<xs:schema xmlns:xs="{cm.XS}" targetNamespace="{T}" xmlns:t="{T}" eleme
        '<xs:element name="b" type="xs:string"/></xs:choice>'
        '</xs:sequence><xs:attribute name="id" type="xs:int" use="required"/>'
        '<xs:attribute name="flag" type="xs:boolean"/><xs:attribute name="ucode" type="t:code"/></xs:complexType>'
+       '<xs:complexType name="altBase"><xs:sequence><xs:element name="x" type="xs:string" minOccurs="0"/></xs:sequence>'
+       '<xs:attribute name="kind" type="xs:boolean" use="required"/></xs:complexType>'
+       '<xs:complexType name="altFull"><xs:complexContent><xs:restriction base="t:altBase"><xs:sequence>'
+       '<xs:element name="x" type="xs:string"/></xs:sequence></xs:restriction></xs:complexContent></xs:complexType>'
+       '<xs:complexType name="altPlain"><xs:complexContent><xs:restriction base="t:altBase"><xs:sequence/>'
+       '</xs:restriction></xs:complexContent></xs:complexType>'
        '<xs:simpleType name="code"><xs:restriction><xs:simpleType><xs:union memberTypes="xs:int xs:string"/>'
        '</xs:simpleType><xs:pattern value="[0-9]{3}|[a-z]{2,5}"/></xs:restriction></xs:simpleType></xs:schema>')
 TEXT = {"s": "abc", "i": "5", "d": "2.5", "l": "1 2 3", "x": "zz", "u3": "123", "ua": "abc"}
-ATTR = {"i": "7", "bool": "true", "s": "EUR", "u3": "456", "ua": "xyz", "t": "true", "f": "false"}
+ATTR = {"i": "7", "bool": "true", "boolF": "false", "s": "EUR", "u3": "456", "ua": "xyz", "t": "true", "f": "false"}
+ALT11 = ("<xs:alternative test=\"@kind = 'true'\" type=\"t:altFull\"/><xs:alternative type=\"t:altPlain\"/>")
 XSI_NS = "http://www.w3.org/2001/XMLSchema-instance"
-_schema = None
+_schema: dict = {}
 
 
-def schema():
-    global _schema
-    if _schema is None:
+def schema(ver="1.0"):
+    """1.0: alt has its base type (kind true or false, x optional); 1.1: the type alternatives decide."""
+    if ver not in _schema:
         import xmlschema
-        _schema = xmlschema.XMLSchema(XSD)
-    return _schema
+        _schema[ver] = (xmlschema.XMLSchema10(XSD.replace("@ALT@", "")) if ver == "1.0"
+                        else xmlschema.XMLSchema11(XSD.replace("@ALT@", ALT11)))
+    return _schema[ver]
 
 
 def render(nodes):
@@ -121,6 +130,8 @@ def abstract(elem):
                 attrs.append(["id", "i" if is_int(v) else "x"])
             elif k == "flag":
                 attrs.append(["flag", "bool" if v.strip() in ("true", "false", "1", "0") else "x"])
+            elif k == "kind":
+                attrs.append(["kind", {"true": "bool", "1": "bool", "false": "boolF", "0": "boolF"}.get(v.strip(), "x")])
             elif k == "lvl":
                 attrs.append(["lvl", "i" if is_int(v) else "x"])
             elif k == "ucode":
@@ -139,7 +150,7 @@ def abstract(elem):
             cls = "i" if is_int(txt) else "x"
         elif name == "code":
             cls = code_class(txt)
-        elif name == "mark":
+        elif name in ("mark", "alt"):
             cls = "x"
         elif name == "tags":
             cls = "l" if all(is_int(t) for t in txt.split()) else "x"
@@ -169,7 +180,7 @@ def typed(elem):
                 return Decimal(s)
             if name == "tags":
                 return tuple(int(x) for x in s.split())
-            if name == "flag":
+            if name in ("flag", "kind"):
                 return s in ("true", "1")
         except (ValueError, InvalidOperation):
             pass
@@ -264,7 +275,7 @@ def mutate(data, rng):
 def judge(job):
     rec, idx, seed, nmut, leafy = job
     import xmlschema
-    s = schema()
+    s = schema("1.1" if (rec.get("needs11") or idx % 2) else "1.0")
     rng = random.Random(seed)
     out, trees = [], []
     xml = render(rec["nodes"])
@@ -370,10 +381,12 @@ def run(ctx: Ctx):
     rng = random.Random(ctx.seed)
     if not thorough:        # a seeded sixth of the one-record documents
         rng.shuffle(recs)
-        recs = recs[: len(recs) // 6]
+        recs = recs[: len(recs) // 14]
     # a seeded sample of two-record documents
-    two = [{"nodes": merge(a["nodes"], b["nodes"]), "contiguous": a["contiguous"] and b["contiguous"]}
+    two = [{"nodes": merge(a["nodes"], b["nodes"]), "contiguous": a["contiguous"] and b["contiguous"],
+            "needs11": a.get("needs11") or b.get("needs11")}
            for a, b in (rng.sample(recs, 2) for _ in range(300 if thorough else 60))]
+
     docs = recs + two
     jobs = [(rec, i, ctx.seed * 65537 + i, 6 if thorough else 2, i % (5 if thorough else 40) == 0)
             for i, rec in enumerate(docs)]
@@ -414,9 +427,9 @@ def run(ctx: Ctx):
     ctx.evaluations = len(all_trees) + len(jobs)
     ctx.nontrivial = len(jobs)
     ctx.extra["distinct_trees_judged_by_tlc"] = len(distinct)
-    ctx.rule = ("one-record documents of spec/Converters.tla (26 244: boolean / union-with-pattern attributes, 0-2 "
+    ctx.rule = ("one-record documents of spec/Converters.tla (78 732: an element whose XSD 1.1 type alternative reads a boolean attribute, boolean / union-with-pattern attributes, 0-2 "
                 "list-valued children, union-with-pattern / nillable / empty-with-attribute / simple-content / mixed "
-                "children, 9 interleavings of a/b children; a seeded sixth in the quick tier) plus a seeded sample of "
+                "children, 9 interleavings of a/b children; a seeded fourteenth in the quick tier) plus a seeded sample of "
                 "two-record documents x lossless conventions; seeded mutations of the decoded data (drop, duplicate, "
                 "retype, reorder) and, for every 40th (5th) document, every scalar slot x a catalogue of 19 values, "
                 "encoded in strict mode; every returned tree is judged by the specification's Valid (TLC batch)")
